@@ -178,6 +178,15 @@ def run(cx: Cx):
                 args = p.last.data.get('args')
                 if args is None or tuple(strip_versions(a) for a in args) != (idt, me):
                     bad = (p, args)
+            elif p.end == 'raise' and not p.last.data.get('direct') and p.last.data.get('exc') == exc and fnq is not get and \
+                    tuple(p.last.data.get('via', ()))[:1] == (get.qualname,):
+                # the strict getter of the same environment raises it: get_agent(<identifier>, throw_error=True) on self
+                ce = [e for e in p.events if e.kind == 'call' and any(t.qualname == get.qualname for t in e.data.get('targets', []))]
+                if ce and strip_versions(ce[-1].data.get('recv')) == me and \
+                        tuple(strip_versions(a) for a in ce[-1].data.get('args', ())[:1]) == (idt,):
+                    n += 1
+                else:
+                    bad = (p, ce[-1].data.get('args') if ce else None)
         if bad is not None:
             cx.violation('R-FWD', fnq.qualname, f"{exc}-built-from-the-identifier-and-this-environment",
                          f"{fnq.qualname} raises {exc}{bad[1]!r}; the documented error is {exc}({idt!r}, {me!r}) - built from anything "
